@@ -259,9 +259,8 @@ fn check_state(cx: &mut Ctx, st: &St, rep: &mut Report) -> Option<(String, Strin
     // structural invariants the algorithm relies on
     let s = st.h.verif_state();
     let cs = &s.chunk_state;
-    if cs.buf[cs.buf_len as usize..].iter().any(|b| *b != 0) {
-        return Some(("Hasher::invariant:buf-tail-nonzero".into(), "buf[buf_len..]==0".into(), "non-zero tail".into()));
-    }
+    // (that the block buffer is zero beyond buf_len is how upstream pads the last block, not something the
+    // property states: a version that pads at output time is just as right - see DESIGN.md section 9)
     if s.cv_stack_len > 55 || cs.buf_len > 64 || cs.blocks_compressed > 16 {
         return Some(("Hasher::invariant:field-out-of-range".into(), "cv_stack<=55, buf_len<=64, blocks<=16".into(),
             format!("{} {} {}", s.cv_stack_len, cs.buf_len, cs.blocks_compressed)));
